@@ -7,13 +7,15 @@ export GOFLAGS=-mod=mod GOPROXY=off
 cd "$W" || exit 2
 git checkout -q --detach "$(git -C /repo rev-parse HEAD)" 2>/dev/null; git checkout -q -- . ; rm -f zz_demo_test.go vanguardgrpc/zz_demo_test.go
 if ! git apply --check "$M/patch.diff" 2>/dev/null; then echo "RESULT $M: patch does not apply at HEAD"; exit 1; fi
-cp "$M/zz_demo_test.go" ./zz_demo_test.go
-DEMO=$(grep -o 'func Test[A-Za-z0-9_]*' zz_demo_test.go | sed 's/func //' | tr '\n' '|' | sed 's/|$//')
-go test -vet=off -count=1 -run "^($DEMO)\$" . >/tmp/mv_clean.log 2>&1; CLEAN=$?
+PKG=.
+if grep -q '^package vanguardgrpc' "$M/zz_demo_test.go"; then PKG=./vanguardgrpc; fi
+cp "$M/zz_demo_test.go" $PKG/zz_demo_test.go
+DEMO=$(grep -o 'func Test[A-Za-z0-9_]*' $PKG/zz_demo_test.go | sed 's/func //' | tr '\n' '|' | sed 's/|$//')
+go test -vet=off -count=1 -run "^($DEMO)\$" $PKG >/tmp/mv_clean.log 2>&1; CLEAN=$?
 git apply "$M/patch.diff"
 go build ./... >/tmp/mv_build.log 2>&1; BUILD=$?
-go test -vet=off -count=1 -run "^($DEMO)\$" . >/tmp/mv_mut.log 2>&1; MUT=$?
-rm -f zz_demo_test.go
+go test -vet=off -count=1 -run "^($DEMO)\$" $PKG >/tmp/mv_mut.log 2>&1; MUT=$?
+rm -f zz_demo_test.go vanguardgrpc/zz_demo_test.go
 go test -vet=off -count=1 ./... >/tmp/mv_suite.log 2>&1; SUITE=$?
 git checkout -q -- .
 echo "RESULT $M: build=$BUILD suite_with_patch=$SUITE demo_on_clean=$CLEAN demo_with_patch=$MUT (want 0 0 0 nonzero)"
